@@ -4,7 +4,7 @@ Writes <new>/Cxx/PROMPT.txt and PROPERTY.txt for the next seeding round from the
 new paths, and the diversity paragraph rebuilt from the summaries of every change stored so far for that property."""
 import sys, re, os, json, glob, shutil
 prev, new = sys.argv[1].rstrip('/'), sys.argv[2].rstrip('/')
-words = ["zero","one","two","three","four","five","six","seven","eight","nine","ten","eleven","twelve"]
+words = ["zero","one","two","three","four","five","six","seven","eight","nine","ten","eleven","twelve","thirteen","fourteen","fifteen","sixteen"]
 for i in range(1, 21):
     pid = f"C{i:02d}"
     t = open(f"{prev}/{pid}/PROMPT.txt").read().replace(prev + "/", new + "/")
